@@ -166,6 +166,40 @@ func c13Check(c *Ctx, b *roaring.Bitmap, m *ISet, mutate bool) {
 			if !reg.Intact() {
 				c.Fail("FrozenView/caller-buffer-modified", "the frozen buffer changed while the view was mutated")
 			}
+			if c.Failed() {
+				return
+			}
+			// a second view of the same bytes takes part in a population machine: in-place algebra with the
+			// view as receiver and as argument, aggregates containing it, derived bitmaps, mutations of all
+			fv2 := roaring.New()
+			if err := fv2.FrozenView(reg.Payload); err != nil {
+				c.Fail("FrozenView/error", "second FrozenView failed: %v", err)
+				return
+			}
+			p := newPop(c, PopMode{Interference: true, MaxLive: 5})
+			k := p.add(&BM{B: fv2, M: m.Clone(), Form: "FrozenView", ZC: true, Reg: reg})
+			c.Step("%s = second FrozenView of the same bytes, in a population machine", p.name(k))
+			k2 := p.add(p.genFresh())
+			c.Step("%s = fresh %s %v", p.name(k2), p.live[k2].Form, descSet(p.live[k2].M))
+			p.lastOp = "init"
+			for i := 0; i < 30; i++ {
+				if !p.Step() {
+					return
+				}
+				if !reg.Intact() {
+					c.Fail("FrozenView/caller-buffer-modified/after-"+p.lastOp, "the frozen buffer changed during a population step")
+					return
+				}
+			}
+			// the bytes must still be a valid frozen image of the original set
+			fv3 := roaring.New()
+			if err := fv3.MustFrozenView(reg.Payload); err != nil {
+				c.Fail("FrozenView/bytes-no-longer-valid", "after the population machine the frozen bytes no longer validate: %v", err)
+				return
+			}
+			if d := checkEq(fv3, m); d != "" {
+				c.Fail("FrozenView/bytes-changed", "after the population machine a fresh view of the bytes differs from the original: %s", d)
+			}
 		}()
 		if c.Failed() {
 			return
